@@ -159,7 +159,9 @@ func RenderSchema(s M, self string) M {
 		var req []string
 		for _, p := range s["props"].([]any) {
 			pm := p.(M)
-			props[pm["name"].(string)] = RenderSchema(pm["s"].(M), self)
+			if d, ok := pm["decl"].(bool); !ok || d {
+				props[pm["name"].(string)] = RenderSchema(pm["s"].(M), self)
+			}
 			if pm["req"].(bool) {
 				req = append(req, pm["name"].(string))
 			}
@@ -245,7 +247,7 @@ func randSchema(rng *rand.Rand, depth int, root bool) M {
 				if root && !req && rng.IntN(6) == 0 {
 					ps = M{"k": "self"}
 				}
-				props = append(props, M{"name": n, "s": ps, "req": req})
+				props = append(props, M{"name": n, "s": ps, "req": req, "decl": true})
 			}
 		}
 		if props == nil {
@@ -272,7 +274,7 @@ func randSchema(rng *rand.Rand, depth int, root bool) M {
 				case 2:
 					v = M{"k": "arr", "items": randSchema(rng, depth-1, false), "minI": pick(rng, 0, 0, 1), "maxI": none, "uniq": false}
 				default:
-					v = pick(rng, M{"k": "bool"}, M{"k": "obj", "props": []any{M{"name": "a", "s": randSchema(rng, depth-1, false), "req": true}}, "addl": M{"k": "addl_false"}, "minP": 0, "maxP": none})
+					v = pick(rng, M{"k": "bool"}, M{"k": "obj", "props": []any{M{"name": "a", "s": randSchema(rng, depth-1, false), "req": true, "decl": true}}, "addl": M{"k": "addl_false"}, "minP": 0, "maxP": none})
 				}
 				t := v["k"]
 				if t == "enum" {
@@ -287,7 +289,7 @@ func randSchema(rng *rand.Rand, depth int, root bool) M {
 		return M{"k": pick(rng, "oneOf", "oneOf", "anyOf"), "ss": ss}
 	case 7:
 		mk := func(n string) M {
-			return M{"k": "obj", "props": []any{M{"name": n, "s": randSchema(rng, depth-1, false), "req": rng.IntN(2) == 0}}, "addl": M{"k": "addl_true"}, "minP": 0, "maxP": none}
+			return M{"k": "obj", "props": []any{M{"name": n, "s": randSchema(rng, depth-1, false), "req": rng.IntN(2) == 0, "decl": true}}, "addl": M{"k": "addl_true"}, "minP": 0, "maxP": none}
 		}
 		return M{"k": "allOf", "ss": []any{mk("a"), mk(pick(rng, "b", "c"))}}
 	}
